@@ -193,6 +193,9 @@ func (l *LiquidOnChain) createCoopSpendingTransaction(swapParams *swap.OpeningPa
 	if err != nil {
 		return "", "", "", err
 	}
+	if err := VerifyTakerSignature(takerSig, sigHash[:], swapParams.TakerPubkey); err != nil {
+		return "", "", "", err
+	}
 	makerSig, err := claimParams.Signer.Sign(sigHash[:])
 	if err != nil {
 		return "", "", "", err
